@@ -1,161 +1,16 @@
 /-
-C17 — executable model of the wavelet code: the row kernels `haar`, `ihaar`, `wavelet`, `iwavelet`
-of `mahotas/_convolve.cpp` (zero outside `[0,N)`), the row-then-column glue of `convolve.py`
-(second pass through the transposed view), the `/2`, `*2` normalisations, and
-`wavelet_center` / `wavelet_decenter`.
-
-Rows and images are total functions `Nat → α`, `Nat → Nat → α` together with their lengths; the
-kernels are written once, polymorphic in the scalar type: the driver *runs* them at `Float`
-(coefficients from `Generated/Tables.lean`, the exact float32 values), `Proofs/C17.lean` and
-`Properties/C17.lean` *prove* facts about the same definitions over fields.
+C17 — driver entry of the wavelet model. The executable model itself lives in `Model/C17Core.lean` (row kernels on
+abstract rows, the row/column glue, `wavelet_center`) and `Model/C17Mem.lean` (the same kernels at the level of the
+strided memory the C code works on: pointer arithmetic of `high = data + step*N1/2`, in-place passes over `f` and `f.T`,
+the wrappers' `inline` handling, `_wavelet_center_compute` for every integer border).
 -/
-import Mahotas.Model.Basic
-import Mahotas.Generated.Tables
+import Mahotas.Model.C17Core
+import Mahotas.Model.C17Mem
 namespace Mahotas.C17
 open Mahotas
 
-section Poly
-variable {α : Type} [Add α] [Sub α] [Mul α] [Div α] [Neg α] [NatCast α] [IntCast α]
-
-abbrev Im (α : Type) := Nat → Nat → α
-
-/-- `T()` -/
-@[inline] def zero : α := ((0 : Nat) : α)
-@[inline] def two : α := ((2 : Nat) : α)
-
-/-- one row of `haar<T>`: `low[x] = d[2x] + d[2x+1]`, `high[x] = d[2x+1] − d[2x]`, `high = buffer + N/2`;
-    for odd `N` the last buffer slot is never written and keeps `T()`. -/
-def haarRow (N : Nat) (f : Nat → α) (x : Nat) : α :=
-  if x < N / 2 then f (2 * x) + f (2 * x + 1)
-  else if x < 2 * (N / 2) then f (2 * (x - N / 2) + 1) - f (2 * (x - N / 2))
-  else zero
-
-/-- one row of `ihaar<T>`: `buffer[2x] = (l−h)/2`, `buffer[2x+1] = (l+h)/2` with `l = d[x]`, `h = d[N/2+x]` -/
-def ihaarRow (N : Nat) (g : Nat → α) (k : Nat) : α :=
-  if k < 2 * (N / 2) then
-    let l := g (k / 2)
-    let h := g (N / 2 + k / 2)
-    if k % 2 = 0 then (l - h) / two else (l + h) / two
-  else zero
-
-/-- `_access(data, N, p, step)`: zero outside `[0,N)` -/
-def access (N : Nat) (f : Nat → α) (p : Int) : α :=
-  if 0 ≤ p ∧ p < (N : Int) then f p.toNat else zero
-
-/-- one row of `wavelet<T>` with scaling coefficients `cs` (`ncoeffs = cs.length`):
-    `low[x] = Σ_ci cs[n−1−ci]·d[2x+ci]`, `high[x] = Σ_ci (ci even ? −1 : +1)·cs[ci]·d[2x+ci]`,
-    accumulated from `T()` in the order of `ci`. -/
-def waveletRow (cs : List α) (N : Nat) (f : Nat → α) (x : Nat) : α :=
-  let n := cs.length
-  if x < N / 2 then
-    (List.range n).foldl (fun acc ci =>
-      acc + cs.getD (n - ci - 1) zero * access N f ((2 * x + ci : Nat) : Int)) zero
-  else if x < 2 * (N / 2) then
-    (List.range n).foldl (fun acc ci =>
-      acc + (if ci % 2 = 0 then -(cs.getD ci zero) else cs.getD ci zero)
-            * access N f ((2 * (x - N / 2) + ci : Nat) : Int)) zero
-  else zero
-
-/-- one row of `iwavelet<T>`: for every tap with odd `xmap2 = x + ci − n + 2`, `xmap = xmap2 / 2`
-    (C division, truncating towards zero: `−1/2 = 0`, a quirk that only matters within `n` samples of
-    the left end), `l += cs[ci]·low[xmap]`, `h += (ci even ? +1 : −1)·cs[n−1−ci]·high[xmap]`;
-    the result is `(l + h)/2`. -/
-def iwaveletRow (cs : List α) (N : Nat) (g : Nat → α) (x : Nat) : α :=
-  let n := cs.length
-  let taps := (List.range n).filter fun ci => (((x + ci : Nat) : Int) - (n : Int) + 2) % 2 ≠ 0
-  let xmap := fun (ci : Nat) => ((((x + ci : Nat) : Int) - (n : Int) + 2)).tdiv 2
-  let l := taps.foldl (fun acc ci => acc + cs.getD ci zero * access (N / 2) g (xmap ci)) zero
-  let h := taps.foldl (fun acc ci =>
-      acc + (if ci % 2 = 0 then cs.getD (n - ci - 1) zero else -(cs.getD (n - ci - 1) zero))
-            * access (N / 2) (fun k => g (N / 2 + k)) (xmap ci)) zero
-  (l + h) / two
-
-/-- a row kernel applied to every row (`kernel(f)`) -/
-def rowsPass (T : Nat → (Nat → α) → Nat → α) (N1 : Nat) (f : Im α) : Im α := fun y => T N1 (f y)
-/-- a row kernel applied through the transposed view (`kernel(f.T)`): every column -/
-def colsPass (T : Nat → (Nat → α) → Nat → α) (N0 : Nat) (f : Im α) : Im α :=
-  fun y x => T N0 (fun k => f k x) y
-
-/-- `convolve.haar`: rows, columns, then `/= 2` when `preserve_energy` -/
-def haar2 (pe : Bool) (N0 N1 : Nat) (f : Im α) : Im α :=
-  let g := colsPass haarRow N0 (rowsPass haarRow N1 f)
-  if pe then fun y x => g y x / two else g
-
-/-- `convolve.ihaar`: rows, columns, then `*= 2` when `preserve_energy` -/
-def ihaar2 (pe : Bool) (N0 N1 : Nat) (f : Im α) : Im α :=
-  let g := colsPass ihaarRow N0 (rowsPass ihaarRow N1 f)
-  if pe then fun y x => g y x * two else g
-
-/-- `convolve.daubechies`: rows, then columns -/
-def daubechies2 (cs : List α) (N0 N1 : Nat) (f : Im α) : Im α :=
-  colsPass (waveletRow cs) N0 (rowsPass (waveletRow cs) N1 f)
-
-/-- `convolve.idaubechies`: columns (`f.T`) first, then rows -/
-def idaubechies2 (cs : List α) (N0 N1 : Nat) (f : Im α) : Im α :=
-  rowsPass (iwaveletRow cs) N1 (colsPass (iwaveletRow cs) N0 f)
-
-/-- a table entry `(m, k)` of `Generated/Tables.lean` as a scalar: `m / 2^k` -/
-def coef (mk : Int × Nat) : α := (mk.1 : α) / ((2 ^ mk.2 : Nat) : α)
-
-/-- `dcoeffs(code)` restricted to `ncoeffs = 2*(code+1)` entries -/
-def coeffsOf (code : Nat) : List α :=
-  ((Generated.dcoeffs.getD code []).take (2 * (code + 1))).map coef
-
-/-- `wavelet_center`'s embedding: `f` at offset `(d0,d1)`, `cval` elsewhere -/
-def center (N0 N1 d0 d1 : Nat) (cval : α) (f : Im α) : Im α :=
-  fun y x => if d0 ≤ y ∧ y < d0 + N0 ∧ d1 ≤ x ∧ x < d1 + N1 then f (y - d0) (x - d1) else cval
-
-/-- `wavelet_decenter`'s slice -/
-def decenter (d0 d1 : Nat) (w : Im α) : Im α := fun y x => w (y + d0) (x + d1)
-
-/-! ### the Python wrappers' buffer handling -/
-
-/-- which buffer the row kernels of a wrapper call write into: the caller's array or a fresh one -/
-inductive Target | input | fresh
-deriving DecidableEq, Repr
-
-/-- `_wavelet_array(f, inline, …)`: `f = _as_floating_point_array(f)` (a non-floating array is converted by
-    `astype(np.double)`: a new array; a floating one is passed through), then `if not inline: return f.copy()`,
-    else `return f` -/
-def wrapTarget (isFloat inline : Bool) : Target :=
-  let afterCast := if isFloat then Target.input else Target.fresh
-  if !inline then Target.fresh else afterCast
-
-/-- a wrapper call `T(f, inline=…)` (`haar`, `ihaar`, `daubechies`, `idaubechies`: the kernels and the final
-    scaling all work in place on the array `_wavelet_array` returned) seen from the caller:
-    (content of the caller's array afterwards, returned array) -/
-def wrapCall (T : Im α → Im α) (isFloat inline : Bool) (f : Im α) : Im α × Im α :=
-  match wrapTarget isFloat inline with
-  | .input => (T f, T f)
-  | .fresh => (f, T f)
-
-end Poly
-
-/-- `_wavelet_center_compute`: the first `c ≥ 1` (below `16+border`) for which every
-    `delta_d = (2^(⌊log2 o_d⌋+c) − o_d) / 2` exceeds `border`; returns the new shape and the offsets. -/
-def centerCompute (oshape : List Nat) (border : Nat) : Option (List Nat × List Nat) :=
-  let cand := fun (c : Nat) =>
-    let nshape := oshape.map fun o => 2 ^ (Nat.log2 o + c)
-    let delta := (nshape.zip oshape).map fun no => (no.1 - no.2) / 2
-    (nshape, delta)
-  ((List.range (15 + border)).map (· + 1)).findSome? fun c =>
-    let (ns, d) := cand c
-    if d.all (fun x => border < x) then some (ns, d) else none
-
-/-! ## driver -/
-
 local instance : NatCast Float := ⟨Float.ofNat⟩
 local instance : IntCast Float := ⟨Float.ofInt⟩
-
-def ofArray (N1 : Nat) (a : Array Float) : Im Float := fun y x => a.getD (y * N1 + x) 0.0
-
-def tabulate2 (N0 N1 : Nat) (f : Im Float) : List Float :=
-  (List.range (N0 * N1)).map fun i => f (i / N1) (i % N1)
-
-/-- evaluate a two-pass transform with the intermediate image stored (as the C code does) -/
-def twoPass (N0 N1 : Nat) (first second : Im Float → Im Float) (f : Im Float) : List Float :=
-  let mid := (tabulate2 N0 N1 (first f)).toArray
-  tabulate2 N0 N1 (second (ofArray N1 mid))
 
 def handle (a : Args) : String :=
   match a.str "kind" with
@@ -184,6 +39,6 @@ def handle (a : Args) : String :=
     match wrapTarget (a.nat "isfloat" 1 == 1) (a.nat "inline" 0 == 1) with
     | .input => "target=input"
     | .fresh => "target=fresh"
-  | k => s!"error=unknown-kind-{k}"
+  | _ => Mem.handle a
 
 end Mahotas.C17
